@@ -375,6 +375,13 @@ impl<'a> G<'a> {
                 self.loopv += 1;
                 let (a, b, s) = match if self.o.frac && self.rng.chance(1, 4) { 9 } else { self.rng.usize(4) } {
                     9 => (E::N(self.rng.range(0, 2)), E::Q(self.rng.range(2, 9)), Some(E::Q(*self.rng.pick(&[2i64, 3, 1, 6])))),
+                    // limit and step written in terms of the loop variable: it has its start value by then
+                    // (x is evaluated and assigned, then y, then z)
+                    3 if self.rng.coin() => (
+                        E::N(self.rng.range(1, 2)),
+                        E::Bin(Box::new(E::V(v.clone())), "+", Box::new(E::N(self.rng.range(0, 3)))),
+                        if self.rng.coin() { Some(E::V(v.clone())) } else { None },
+                    ),
                     0 => (E::N(self.rng.range(0, 3)), E::N(self.rng.range(0, 5)), None),
                     1 => (E::N(self.rng.range(3, 6)), E::N(self.rng.range(0, 3)), Some(E::N(-self.rng.range(1, 2)))),
                     2 => (
